@@ -1799,7 +1799,7 @@ theorem pl_titles (t : Str) (htl : t.length ≤ 60) (rest : List Str) (st : PdbS
 /-- line level: `parseLines(toLines(s))` for PDB -/
 theorem parsePdb_writePdb (d : PdbS) (h : reprPdb d = true) : parsePdb (writePdb d) = .ok (quantPdb d) := by
   obtain ⟨title, cell, atoms⟩ := d
-  simp only [reprPdb, rangePdb, Bool.and_eq_true, decide_eq_true_eq] at h
+  simp only [reprPdb, Bool.and_eq_true, decide_eq_true_eq] at h
   obtain ⟨⟨⟨⟨_, htl⟩, hc⟩, ha⟩, hn⟩ := h
   unfold parsePdb writePdb
   cases cell with
@@ -1883,7 +1883,7 @@ theorem NoNL_pdbTitleLines (t : Str) (ht : lineOk t = true) (htl : t.length ≤ 
 /-- string level: `readStr(writeStr("pdb"), "pdb")` -/
 theorem roundtrip_pdb (d : PdbS) (h : reprPdb d = true) : parseTextPdb (writeTextPdb d) = .ok (quantPdb d) := by
   have h' := h
-  simp only [reprPdb, rangePdb, Bool.and_eq_true, decide_eq_true_eq] at h'
+  simp only [reprPdb, Bool.and_eq_true, decide_eq_true_eq] at h'
   obtain ⟨⟨⟨⟨ht, htl⟩, hc⟩, ha⟩, hn⟩ := h'
   unfold parseTextPdb writeTextPdb
   have hne : writePdb d ≠ [] := by simp [writePdb]
@@ -1911,6 +1911,416 @@ theorem roundtrip_pdb (d : PdbS) (h : reprPdb d = true) : parseTextPdb (writeTex
   · have : (writePdb d).getLast hne = padRight 80 kwEND := by
       simp [writePdb]
     rw [this]; decide
+
+
+
+theorem length_fixedBody (p m d : Nat) (hd : 1 ≤ d) (hm : m < 10 ^ (d + p)) :
+    (fixedBody p m).length ≤ d + (if p = 0 then 0 else 1 + p) := by
+  unfold fixedBody
+  have hq : m / 10 ^ p < 10 ^ d := by
+    rw [Nat.div_lt_iff_lt_mul (by positivity)]; rw [pow_add] at hm; exact hm
+  have := length_natDigits_le d hd _ hq
+  split
+  · simp; omega
+  · simp [length_fixDigits]; omega
+
+/-- a value whose rounded magnitude has at most `d` integer digits fits `%w.pf` when
+`sign + d + 1 + p ≤ w` — the numeric reading of the column-width conditions of `Repr_pdb` -/
+theorem fitsF_of_bound (w p d : Nat) (x : Rat) (hd : 1 ≤ d) (hp : 1 ≤ p) (hm : scaledAbs p x < 10 ^ (d + p))
+    (hw : (if x < 0 then 1 else 0) + d + 1 + p ≤ w) : fitsF w p x = true := by
+  have h := length_fixedBody p (scaledAbs p x) d hd hm
+  have hp' : p ≠ 0 := by omega
+  simp only [hp', if_false] at h
+  simp only [fitsF, decide_eq_true_eq, fmtFbody, List.length_append]
+  by_cases hx : x < 0
+  · simp only [hx, if_true] at hw; simp [signStr, hx]; omega
+  · simp only [hx, if_false] at hw; simp [signStr, hx]; omega
+
+theorem fitsI_of_bound (w d : Nat) (n : Int) (hd : 1 ≤ d) (hm : n.natAbs < 10 ^ d)
+    (hw : (if n < 0 then 1 else 0) + d ≤ w) : fitsI w n = true := by
+  have := length_natDigits_le d hd _ hm
+  simp only [fitsI, decide_eq_true_eq, fmtIbody, List.length_append]
+  by_cases hx : n < 0
+  · simp only [hx, if_true] at hw; simp [signStr, hx]; omega
+  · simp only [hx, if_false] at hw; simp [signStr, hx]; omega
+
+macro "fitsF_tac " d:num : tactic =>
+  `(tactic| exact fitsF_of_bound _ _ $d _ (by decide) (by decide) (by decide) (by decide))
+macro "fitsI_tac " d:num : tactic =>
+  `(tactic| exact fitsI_of_bound _ $d _ (by decide) (by decide) (by decide))
+
+def exPdb : PdbS :=
+  ⟨"CdSe".toList, some ⟨mkRat 43 10, mkRat 43 10, 7, 90, 90, 120⟩,
+   [⟨"Cd".toList, "Cd".toList, ⟨mkRat 1 3, mkRat (-2) 3, 0⟩, 1, mkRat 1 2, none⟩,
+    ⟨"Se1".toList, "Se".toList, ⟨mkRat (-99999) 1000, mkRat 999999 1000, mkRat 7 2⟩, mkRat 1 2, mkRat 79 100,
+      some [100, 200, 300, -10, 0, 999999]⟩]⟩
+
+/-- non-vacuity of `roundtrip_pdb`: a structure with negative and column-filling coordinates -/
+theorem exPdb_repr : reprPdb exPdb = true := by
+  simp only [reprPdb, exPdb, Bool.and_eq_true, decide_eq_true_eq, List.all_cons, List.all_nil, pdbAtomOk,
+    pdbCellOk, pdbAnisoOk]
+  refine ⟨⟨⟨⟨by decide, by decide⟩, ⟨⟨⟨⟨⟨?_, ?_⟩, ?_⟩, ?_⟩, ?_⟩, ?_⟩⟩,
+    ⟨⟨⟨⟨⟨⟨⟨⟨⟨⟨by decide, by decide⟩, by decide⟩, by decide⟩, ?_⟩, ?_⟩, ?_⟩, ?_⟩, ?_⟩, trivial⟩,
+     ⟨⟨⟨⟨⟨⟨⟨⟨⟨by decide, by decide⟩, by decide⟩, by decide⟩, ?_⟩, ?_⟩, ?_⟩, ?_⟩, ?_⟩, ⟨⟨⟨⟨⟨?_, ?_⟩, ?_⟩, ?_⟩, ?_⟩, ?_⟩⟩, trivial⟩⟩, by decide⟩
+  · fitsF_tac 1
+  · fitsF_tac 1
+  · fitsF_tac 1
+  · fitsF_tac 2
+  · fitsF_tac 2
+  · fitsF_tac 3
+  · fitsF_tac 1
+  · fitsF_tac 1
+  · fitsF_tac 1
+  · fitsF_tac 1
+  · fitsF_tac 1
+  · fitsF_tac 2
+  · fitsF_tac 3
+  · fitsF_tac 1
+  · fitsF_tac 1
+  · fitsF_tac 1
+  · fitsI_tac 3
+  · fitsI_tac 3
+  · fitsI_tac 3
+  · fitsI_tac 2
+  · fitsI_tac 1
+  · fitsI_tac 6
+
+
+
+/-! ## second round trip: `quant_f` is idempotent and stays inside `repr_f` -/
+
+theorem roundSig_pos (P : Nat) {x : Rat} (hx : 0 < x) : 0 < roundSig P x := by
+  unfold roundSig
+  generalize hQ : (if P = 0 then 1 else P) = Q
+  have hQ1 : 1 ≤ Q := by rw [← hQ]; split <;> omega
+  have hx0 : x ≠ 0 := ne_of_gt hx
+  have hnum : 0 < x.num.natAbs := by
+    have : x.num ≠ 0 := Rat.num_ne_zero.2 hx0
+    omega
+  obtain ⟨hm1, _⟩ := sci_spec Q x.num.natAbs x.den hQ1 hnum x.den_pos
+  have hmpos : (0 : Rat) < ((sci Q x.num.natAbs x.den).2 : Rat) := by
+    have : 0 < (sci Q x.num.natAbs x.den).2 := lt_of_lt_of_le (by positivity) hm1
+    exact_mod_cast this
+  have hneg : ¬ x < 0 := not_lt.2 (le_of_lt hx)
+  simp only [roundSigP, hx0, if_false, hneg]
+  exact scale10_pos hmpos _
+
+theorem quantShape_idem (v : Rat) : quantShape (quantShape v) = quantShape v := by
+  unfold quantShape
+  by_cases h : 0 < v
+  · simp only [h, if_true, roundSig_pos 6 h, roundSig_idem]
+  · simp [h]
+
+theorem toUpperA_idem (c : Char) : toUpperA (toUpperA c) = toUpperA c := by
+  apply Char.toNat_inj.1
+  rw [toUpperA_toNat, toUpperA_toNat]
+  have : isLowerA (toUpperA c) = false := by
+    cases hl : isLowerA c with
+    | true =>
+      have h := toUpperA_toNat c
+      rw [hl] at h; simp only [if_true] at h
+      simp only [isLowerA, Bool.and_eq_true, decide_eq_true_eq] at hl
+      simp only [isLowerA, h, Bool.and_eq_false_iff, decide_eq_false_iff_not]; omega
+    | false =>
+      have : toUpperA c = c := by simp [toUpperA, hl]
+      rw [this, hl]
+  simp [this]
+
+theorem toLowerA_toNat (c : Char) :
+    (toLowerA c).toNat = if isUpperA c then c.toNat + 32 else c.toNat := by
+  unfold toLowerA
+  split
+  · rename_i h
+    simp only [isUpperA, Bool.and_eq_true, decide_eq_true_eq] at h
+    rw [toNat_ofNat_small _ (by omega)]
+  · rfl
+
+theorem toLowerA_idem (c : Char) : toLowerA (toLowerA c) = toLowerA c := by
+  apply Char.toNat_inj.1
+  rw [toLowerA_toNat, toLowerA_toNat]
+  have : isUpperA (toLowerA c) = false := by
+    cases hl : isUpperA c with
+    | true =>
+      have h := toLowerA_toNat c
+      rw [hl] at h; simp only [if_true] at h
+      simp only [isUpperA, Bool.and_eq_true, decide_eq_true_eq] at hl
+      simp only [isUpperA, h, Bool.and_eq_false_iff, decide_eq_false_iff_not]; omega
+    | false =>
+      have : toLowerA c = c := by simp [toLowerA, hl]
+      rw [this, hl]
+  simp [this]
+
+theorem toUpperA_toLowerA (c : Char) : toUpperA (toLowerA c) = toUpperA c := by
+  apply Char.toNat_inj.1
+  rw [toUpperA_toNat, toUpperA_toNat]
+  by_cases hu : isUpperA c = true
+  · have h1 : isLowerA (toLowerA c) = true := by
+      simp only [isUpperA, Bool.and_eq_true, decide_eq_true_eq] at hu
+      simp only [isLowerA, Bool.and_eq_true, decide_eq_true_eq, toLowerA_toNat, isUpperA]
+      simp [hu]
+    have h2 : isLowerA c = false := by
+      simp only [isUpperA, Bool.and_eq_true, decide_eq_true_eq] at hu
+      simp only [isLowerA, Bool.and_eq_false_iff, decide_eq_false_iff_not]; omega
+    simp only [h1, h2, if_true, Bool.false_eq_true, if_false, toLowerA_toNat, hu]; omega
+  · have : toLowerA c = c := by simp [toLowerA, hu]
+    rw [this]
+
+theorem isGraphA_toLowerA {c : Char} (h : isGraphA c = true) : isGraphA (toLowerA c) = true := by
+  simp only [isGraphA, Bool.and_eq_true, decide_eq_true_eq, toLowerA_toNat] at *
+  split
+  · rename_i hl; simp only [isUpperA, Bool.and_eq_true, decide_eq_true_eq] at hl; omega
+  · exact h
+
+theorem capitalize_idem (e : Str) : capitalize (capitalize e) = capitalize e := by
+  cases e with
+  | nil => rfl
+  | cons c cs =>
+    simp only [capitalize, toUpperA_idem, lower, List.map_map]
+    congr 1
+    apply List.map_congr_left
+    intro d _
+    exact toLowerA_idem d
+
+theorem upper_capitalize (e : Str) : upper (capitalize e) = upper e := by
+  cases e with
+  | nil => rfl
+  | cons c cs =>
+    simp only [capitalize, upper, lower, List.map_cons, List.map_map, toUpperA_idem]
+    congr 1
+    apply List.map_congr_left
+    intro d _
+    exact toUpperA_toLowerA d
+
+theorem elemOk_capitalize {e : Str} (h : elemOk e = true) : elemOk (capitalize e) = true := by
+  simp only [elemOk, Bool.and_eq_true, Bool.not_eq_true', List.all_eq_true] at *
+  cases e with
+  | nil => simp at h
+  | cons c cs =>
+    refine ⟨by simp [capitalize], ?_⟩
+    intro d hd
+    simp only [capitalize, lower, List.mem_cons, List.mem_map] at hd
+    rcases hd with rfl | ⟨x, hx, rfl⟩
+    · exact isGraphA_toUpperA (h.2 c (by simp))
+    · exact isGraphA_toLowerA (h.2 x (by simp [hx]))
+
+theorem lineOk_sublist {a b : Str} (h : a.Sublist b) (hb : lineOk b = true) : lineOk a = true := by
+  simp only [lineOk, List.all_eq_true] at *
+  exact fun c hc => hb c (h.subset hc)
+
+theorem strip_sublist (s : Str) : (strip s).Sublist s := by
+  unfold strip rstrip lstrip
+  have h1 : (List.dropWhile isWs (List.dropWhile isWs s).reverse).reverse.Sublist (List.dropWhile isWs s) := by
+    have := (List.dropWhile_sublist isWs (l := (List.dropWhile isWs s).reverse))
+    have := this.reverse
+    simpa using this
+  exact h1.trans (List.dropWhile_sublist _)
+
+
+
+theorem quantPAtomCap_idem (a : PAtom) : quantPAtomCap (quantPAtomCap a) = quantPAtomCap a := by
+  simp [quantPAtomCap, capitalize_idem, roundSig_idem]
+
+theorem quantXyz_idem (d : XyzS) : quantXyz (quantXyz d) = quantXyz d := by
+  simp [quantXyz, strip_idem, List.map_map, Function.comp_def, quantPAtomCap_idem]
+
+theorem reprXyz_quant (d : XyzS) (h : reprXyz d = true) : reprXyz (quantXyz d) = true := by
+  simp only [reprXyz, rangeXyz, Bool.and_eq_true, List.all_eq_true] at *
+  refine ⟨lineOk_sublist (strip_sublist _) h.1, ?_⟩
+  intro a ha
+  simp only [quantXyz, List.mem_map] at ha
+  obtain ⟨b, hb, rfl⟩ := ha
+  exact elemOk_capitalize (h.2 b hb)
+
+/-- second round trip for XYZ: the re-read structure is a fixed point -/
+theorem idem_xyz (d : XyzS) (h : reprXyz d = true) :
+    parseTextXyz (writeTextXyz (quantXyz d)) = .ok (quantXyz d) := by
+  rw [roundtrip_xyz _ (reprXyz_quant d h), quantXyz_idem]
+
+theorem quantRaw_idem (d : List PAtom) : quantRaw (quantRaw d) = quantRaw d := by
+  simp [quantRaw, List.map_map, Function.comp_def, quantPAtom, roundSig_idem]
+
+theorem reprRaw_quant (d : List PAtom) (h : reprRaw d = true) : reprRaw (quantRaw d) = true := by
+  simp only [reprRaw, quantRaw, List.all_map, Function.comp_def, quantPAtom] at *
+  exact h
+
+theorem idem_rawxyz (d : List PAtom) (h : reprRaw d = true) :
+    parseTextRaw (writeTextRaw (quantRaw d)) = .ok (quantRaw d) := by
+  rw [roundtrip_rawxyz _ (reprRaw_quant d h), quantRaw_idem]
+
+theorem upper_idem (e : Str) : upper (upper e) = upper e := by
+  simp [upper, List.map_map, Function.comp_def, toUpperA_idem]
+
+theorem cap_upper_idem (e : Str) : capitalize (upper (capitalize (upper e))) = capitalize (upper e) := by
+  rw [upper_capitalize, upper_idem]
+
+theorem V3_map_idem (f : Rat → Rat) (hf : ∀ x, f (f x) = f x) (v : V3) : (v.map f).map f = v.map f := by
+  simp [V3.map, hf]
+
+theorem Cell6_map_idem (f : Rat → Rat) (hf : ∀ x, f (f x) = f x) (c : Cell6) : (c.map f).map f = c.map f := by
+  simp [Cell6.map, hf]
+
+theorem noWsStr_idem (s : Str) : noWsStr (noWsStr s) = noWsStr s := by
+  simp [noWsStr, List.filter_filter]
+
+theorem quantDAtom_idem (a : DAtom) : quantDAtom (quantDAtom a) = quantDAtom a := by
+  simp [quantDAtom, cap_upper_idem, roundTo_idem]
+
+theorem quantDiscus_idem (d : DiscusS) : quantDiscus (quantDiscus d) = quantDiscus d := by
+  simp [quantDiscus, strip_idem, noWsStr_idem, quantShape_idem, Cell6_map_idem _ (roundTo_idem 6), List.map_map,
+    Function.comp_def, quantDAtom_idem]
+
+theorem toLowerA_ne {c : Char} (k : Char) (hk : k.toNat < 65) (h : c ≠ k) : toLowerA c ≠ k := by
+  intro e
+  have := congrArg Char.toNat e
+  rw [toLowerA_toNat] at this
+  cases hu : isUpperA c with
+  | true =>
+    rw [hu] at this; simp only [if_true] at this
+    simp only [isUpperA, Bool.and_eq_true, decide_eq_true_eq] at hu; omega
+  | false => rw [hu] at this; simp only [Bool.false_eq_true, if_false] at this; exact h (Char.toNat_inj.1 this)
+
+theorem elemOk_upper {e : Str} (h : elemOk e = true) : elemOk (upper e) = true := by
+  simp only [elemOk, Bool.and_eq_true, Bool.not_eq_true', List.all_eq_true] at *
+  cases e with
+  | nil => simp at h
+  | cons c cs =>
+    refine ⟨by simp [upper], ?_⟩
+    intro d hd
+    simp only [upper, List.mem_map] at hd
+    obtain ⟨x, hx, rfl⟩ := hd
+    exact isGraphA_toUpperA (h.2 x hx)
+
+theorem elemOkD_cap_upper {e : Str} (h : elemOkD e = true) : elemOkD (capitalize (upper e)) = true := by
+  have hok := elemOk_capitalize (elemOk_upper (elemOk_of_elemOkD h))
+  simp only [elemOkD, Bool.and_eq_true, List.all_eq_true, bne_iff_ne] at h ⊢
+  obtain ⟨⟨_, hc⟩, hh⟩ := h
+  refine ⟨⟨hok, ?_⟩, ?_⟩
+  · intro d hd
+    cases e with
+    | nil => simp [upper, capitalize] at hd
+    | cons c cs =>
+      simp only [upper, capitalize, lower, List.map_cons, List.mem_cons, List.mem_map] at hd
+      rcases hd with rfl | ⟨x, ⟨y, hy, rfl⟩, rfl⟩
+      · exact toUpperA_ne ',' (by decide) (toUpperA_ne ',' (by decide) (hc c (by simp)))
+      · exact toLowerA_ne ',' (by decide) (toUpperA_ne ',' (by decide) (hc y (by simp [hy])))
+  · cases e with
+    | nil => simp [upper, capitalize]
+    | cons c cs =>
+      simp only [upper, capitalize, List.map_cons, List.head?_cons, ne_eq, Option.some.injEq]
+      simp only [List.head?_cons, ne_eq, Option.some.injEq] at hh
+      exact toUpperA_ne '#' (by decide) (toUpperA_ne '#' (by decide) hh)
+
+theorem lineOk_filter (p : Char → Bool) {s : Str} (h : lineOk s = true) : lineOk (s.filter p) = true :=
+  lineOk_sublist List.filter_sublist h
+
+theorem reprDiscus_quant (d : DiscusS) (h : reprDiscus d = true) : reprDiscus (quantDiscus d) = true := by
+  simp only [reprDiscus, rangeDiscus, Bool.and_eq_true, List.all_eq_true] at *
+  refine ⟨⟨lineOk_sublist (strip_sublist _) h.1.1, lineOk_filter _ h.1.2⟩, ?_⟩
+  intro a ha
+  simp only [quantDiscus, List.mem_map] at ha
+  obtain ⟨b, hb, rfl⟩ := ha
+  exact elemOkD_cap_upper (h.2 b hb)
+
+theorem idem_discus (d : DiscusS) (h : reprDiscus d = true) :
+    parseTextDiscus (writeTextDiscus (quantDiscus d)) = .ok (quantDiscus d) := by
+  rw [roundtrip_discus _ (reprDiscus_quant d h), quantDiscus_idem]
+
+theorem quantPFAtom_idem (a : PFAtom) : quantPFAtom (quantPFAtom a) = quantPFAtom a := by
+  simp [quantPFAtom, cap_upper_idem, roundTo_idem, V3_map_idem _ (roundTo_idem 8)]
+
+theorem quantPdffit_idem (d : PdffitS) : quantPdffit (quantPdffit d) = quantPdffit d := by
+  simp [quantPdffit, strip_idem, quantShape_idem, roundTo_idem, Cell6_map_idem _ (roundTo_idem 6), List.map_map,
+    Function.comp_def, quantPFAtom_idem]
+
+theorem reprPdffit_quant (d : PdffitS) (h : reprPdffit d = true) : reprPdffit (quantPdffit d) = true := by
+  simp only [reprPdffit, rangePdffit, Bool.and_eq_true, List.all_eq_true] at *
+  refine ⟨⟨lineOk_sublist (strip_sublist _) h.1.1, lineOk_sublist (strip_sublist _) h.1.2⟩, ?_⟩
+  intro a ha
+  simp only [quantPdffit, List.mem_map] at ha
+  obtain ⟨b, hb, rfl⟩ := ha
+  exact elemOk_capitalize (elemOk_upper (h.2 b hb))
+
+theorem idem_pdffit (d : PdffitS) (h : reprPdffit d = true) :
+    parseTextPdffit (writeTextPdffit (quantPdffit d)) = .ok (quantPdffit d) := by
+  rw [roundtrip_pdffit _ (reprPdffit_quant d h), quantPdffit_idem]
+
+
+
+theorem roundTo_neg_imp {p : Nat} {x : Rat} (h : roundTo p x < 0) : x < 0 := by
+  by_contra hx
+  rw [roundTo_eq, if_neg hx] at h
+  have : (0 : Rat) ≤ 1 * ((scaledAbs p x : Nat) : Rat) / ((10 ^ p : Nat) : Rat) := by positivity
+  exact absurd h (not_lt.2 this)
+
+theorem fitsF_roundTo {w p : Nat} {x : Rat} (h : fitsF w p x = true) : fitsF w p (roundTo p x) = true := by
+  simp only [fitsF, decide_eq_true_eq, fmtFbody, List.length_append, fmtFbody_roundTo_abs] at *
+  have : (signStr (decide (roundTo p x < 0))).length ≤ (signStr (decide (x < 0))).length := by
+    by_cases hr : roundTo p x < 0
+    · have := roundTo_neg_imp hr; simp [signStr, hr, this]
+    · simp [signStr, hr]
+  omega
+
+theorem rstrip_sublist (s : Str) : (rstrip s).Sublist s := by
+  unfold rstrip
+  have := (List.dropWhile_sublist isWs (l := s.reverse)).reverse
+  simpa using this
+
+theorem rstrip_idem (s : Str) : rstrip (rstrip s) = rstrip s := by
+  rcases ws_decomp s with h | ⟨a, m, b, rfl, _, hb, hm⟩
+  · rw [rstrip_allWs h]; rfl
+  · rw [rstrip_core hb hm]
+    have := rstrip_core (s := a) (b := []) (by intro c h; cases h) hm
+    simpa using this
+
+theorem quantPdbTitle_short (t : Str) (hl : t.length ≤ 60) : quantPdbTitle t = rstrip t := by
+  by_cases ht : t = []
+  · subst ht; rfl
+  · simp [quantPdbTitle, titleChunks_short t ht hl]
+
+theorem pdbAtomOk_quant {a : PdbAtom} (h : pdbAtomOk a = true) : pdbAtomOk (quantPdbAtom a) = true := by
+  simp only [pdbAtomOk, Bool.and_eq_true, decide_eq_true_eq] at h
+  obtain ⟨⟨⟨⟨⟨⟨⟨⟨⟨hn, hnl⟩, he⟩, hel⟩, hx⟩, hy⟩, hz⟩, ho⟩, hb⟩, hu⟩ := h
+  simp only [pdbAtomOk, quantPdbAtom, V3.map, Bool.and_eq_true]
+  exact ⟨⟨⟨⟨⟨⟨⟨⟨⟨hn, decide_eq_true hnl⟩, he⟩, decide_eq_true hel⟩, fitsF_roundTo hx⟩, fitsF_roundTo hy⟩, fitsF_roundTo hz⟩, fitsF_roundTo ho⟩,
+    fitsF_roundTo hb⟩, hu⟩
+
+theorem pdbCellOk_quant {c : Cell6} (h : pdbCellOk c = true) : pdbCellOk (quantPdbCell c) = true := by
+  simp only [pdbCellOk, Bool.and_eq_true, quantPdbCell] at *
+  obtain ⟨⟨⟨⟨⟨h1, h2⟩, h3⟩, h4⟩, h5⟩, h6⟩ := h
+  exact ⟨⟨⟨⟨⟨fitsF_roundTo h1, fitsF_roundTo h2⟩, fitsF_roundTo h3⟩, fitsF_roundTo h4⟩, fitsF_roundTo h5⟩, fitsF_roundTo h6⟩
+
+theorem reprPdb_quant (d : PdbS) (h : reprPdb d = true) : reprPdb (quantPdb d) = true := by
+  obtain ⟨title, cell, atoms⟩ := d
+  simp only [reprPdb, Bool.and_eq_true, decide_eq_true_eq] at h
+  obtain ⟨⟨⟨⟨ht, htl⟩, hc⟩, ha⟩, hn⟩ := h
+  simp only [reprPdb, quantPdb, quantPdbTitle_short title htl, Bool.and_eq_true, decide_eq_true_eq]
+  refine ⟨⟨⟨⟨lineOk_sublist (rstrip_sublist _) ht, le_trans (rstrip_sublist _).length_le htl⟩, ?_⟩, ?_⟩, by simpa using hn⟩
+  · cases cell with
+    | none => rfl
+    | some c => exact pdbCellOk_quant hc
+  · simp only [List.all_eq_true] at *
+    intro a ha'
+    obtain ⟨b, hb, rfl⟩ := List.mem_map.1 ha'
+    exact pdbAtomOk_quant (ha b hb)
+
+theorem quantPdb_idem (d : PdbS) (hl : d.title.length ≤ 60) : quantPdb (quantPdb d) = quantPdb d := by
+  obtain ⟨title, cell, atoms⟩ := d
+  simp only at hl
+  have h1 : quantPdbTitle (quantPdbTitle title) = quantPdbTitle title := by
+    rw [quantPdbTitle_short title hl, quantPdbTitle_short _ (le_trans (rstrip_sublist _).length_le hl), rstrip_idem]
+  have h2 : ∀ a : PdbAtom, quantPdbAtom (quantPdbAtom a) = quantPdbAtom a := by
+    intro a; simp [quantPdbAtom, roundTo_idem, V3_map_idem _ (roundTo_idem 3)]
+  have h3 : ∀ c : Cell6, quantPdbCell (quantPdbCell c) = quantPdbCell c := by
+    intro c; simp [quantPdbCell, roundTo_idem]
+  simp only [quantPdb, h1, List.map_map, Function.comp_def, h2]
+  cases cell <;> simp [h3]
+
+/-- second round trip for PDB -/
+theorem idem_pdb (d : PdbS) (h : reprPdb d = true) :
+    parseTextPdb (writeTextPdb (quantPdb d)) = .ok (quantPdb d) := by
+  have hl : d.title.length ≤ 60 := by
+    simp only [reprPdb, Bool.and_eq_true, decide_eq_true_eq] at h; exact h.1.1.1.2
+  rw [roundtrip_pdb _ (reprPdb_quant d h), quantPdb_idem d hl]
 
 
 end DS.Formats
